@@ -210,7 +210,7 @@ Qed.
 Lemma type_of_code_bound c t : type_of_code c = Some t -> 1 <= c <= 13.
 Proof.
   destruct c as [|p]; [discriminate|].
-  do 4 (destruct p as [p|p|]; try discriminate; try (intros _; lia)).
+  do 4 (try (destruct p as [p|p|]); try discriminate; try (intros _; lia)).
 Qed.
 
 Lemma type_of_code_code t : type_of_code (code t) = Some t.
@@ -219,7 +219,7 @@ Proof. destruct t; reflexivity. Qed.
 Lemma type_of_code_nonbool c t : type_of_code c = Some t -> c <> 1 -> c <> 2 -> t <> TBool /\ code t = c.
 Proof.
   destruct c as [|p]; [discriminate|].
-  do 4 (destruct p as [p|p|]; try discriminate); intros H; inversion H; subst; intros; split; try discriminate; try reflexivity; congruence.
+  do 4 (try (destruct p as [p|p|]); try discriminate); intros H; inversion H; subst; intros; split; try discriminate; try reflexivity; congruence.
 Qed.
 
 Lemma code_bound t : 1 <= code t <= 13.
@@ -241,20 +241,22 @@ Proof.
     assert (E1 : (16 * dl + tc <? 256) = true) by (apply N.ltb_lt; lia). rewrite E1.
     assert (E2 : (16 * dl + tc) / 16 = dl) by lia. rewrite E2.
     assert (E3 : (dl =? 0) = false) by (apply N.eqb_neq; lia). rewrite E3.
-    assert (E4 : (16 * dl + tc) mod 16 = tc) by lia. rewrite E4.
+    assert (E4 : (16 * dl + tc) mod 16 = tc).
+    { rewrite N.add_comm, (N.mul_comm 16). rewrite N.mod_add by lia. apply N.mod_small. lia. }
+    rewrite E4.
     replace (last + Z.of_N dl)%Z with id by (unfold dl; lia). rewrite Hid. reflexivity.
   - cbn [app dec_fhdr].
     assert (E0 : (tc =? 0) = false) by (apply N.eqb_neq; lia). rewrite E0.
     assert (E1 : (tc <? 256) = true) by (apply N.ltb_lt; lia). rewrite E1.
     assert (E2 : tc / 16 = 0) by lia. rewrite E2. cbn [N.eqb].
     rewrite (varint_dec_complete _ _ r Hv). cbv zeta. rewrite unzz_zz, Hid.
-    assert (E4 : tc mod 16 = tc) by lia. rewrite E4. reflexivity.
+    assert (E4 : tc mod 16 = tc) by (apply N.mod_small; lia). rewrite E4. reflexivity.
 Qed.
 
 Lemma dec_fhdr_sound last bs o r : dec_fhdr last bs = Some (o, r) ->
   match o with
   | None => bs = 0 :: r
-  | Some (tc, id) => exists h, bs = h ++ r /\ fhdr last id tc h /\ 1 <= tc <= 15 /\ in_range 16 id
+  | Some (tc, id) => exists h, bs = h ++ r /\ fhdr last id tc h /\ tc <= 15 /\ in_range 16 id
   end.
 Proof.
   destruct bs as [|b tl]; [discriminate|]. cbn [dec_fhdr].
@@ -264,18 +266,519 @@ Proof.
   - apply N.eqb_eq in E2. destruct (varint_dec tl) as [[n r']|] eqn:V; [|discriminate]. cbv zeta.
     destruct (in_rangeb 16 (unzz n)) eqn:R; [|discriminate]. intros H; inversion H; subst.
     destruct (varint_dec_sound _ _ _ V) as (l & -> & Hv). apply in_rangeb_iff in R.
-    exists (b :: l). split; [reflexivity|]. split.
-    + replace (b mod 16) with b by lia. apply FH_long. rewrite zz_unzz. exact Hv.
+    assert (B16 : b < 16) by (apply N.div_small_iff in E2; lia).
+    exists (b :: l). split; [reflexivity|]. rewrite (N.mod_small b 16) by exact B16. split.
+    + apply FH_long. rewrite zz_unzz. exact Hv.
     + split; [lia | exact R].
   - apply N.eqb_neq in E2. cbv zeta. destruct (in_rangeb 16 (last + Z.of_N (b / 16))) eqn:R; [|discriminate].
     intros H; inversion H; subst. apply in_rangeb_iff in R. exists [b]. split; [reflexivity|].
-    assert (D : 1 <= b / 16 <= 15) by lia.
-    split; [|split; [|exact R]].
-    + replace b with (16 * Z.to_N (last + Z.of_N (b / 16) - last) + b mod 16) at 3.
-      * apply FH_short. lia.
-      * replace (Z.to_N (last + Z.of_N (b / 16) - last)) with (b / 16) by lia. lia.
-    + assert (b mod 16 <> 0 \/ b mod 16 = 0) by lia.
-      (* a short-form header with type nibble 0 is not produced by any encoder, but it is not STOP either;
-         the reader above treats the nibble as a type code, which must then be a valid one: *)
-      lia.
+    assert (D : 1 <= b / 16 <= 15).
+    { split; [lia|]. assert (b / 16 < 16) by (apply N.div_lt_upper_bound; lia). lia. }
+    assert (M : b mod 16 < 16) by (apply N.mod_lt; lia).
+    split; [|split; [lia|exact R]].
+    replace b with (16 * Z.to_N (last + Z.of_N (b / 16) - last) + b mod 16) at 3.
+    + apply FH_short. lia.
+    + replace (Z.to_N (last + Z.of_N (b / 16) - last)) with (b / 16) by lia. symmetry. apply N.div_mod. lia.
 Qed.
+
+Lemma dec_lhdr_complete et ec n h r : tcode et ec -> lhdr ec n h -> dec_lhdr (h ++ r) = Some (et, n, r).
+Proof.
+  intros Ht H. pose proof (type_of_code_bound _ _ Ht) as B. unfold tcode in Ht.
+  inversion H as [Hn | l Hn Hv]; subst; cbn [app dec_lhdr].
+  - assert (E1 : (16 * n + ec <? 256) = true) by (apply N.ltb_lt; lia). rewrite E1.
+    assert (E4 : (16 * n + ec) mod 16 = ec).
+    { rewrite N.add_comm, (N.mul_comm 16). rewrite N.mod_add by lia. apply N.mod_small. lia. }
+    assert (E2 : (16 * n + ec) / 16 = n).
+    { rewrite N.add_comm, (N.mul_comm 16). rewrite N.div_add by lia. rewrite N.div_small by lia. lia. }
+    rewrite E4, Ht, E2. assert (E3 : (n =? 15) = false) by (apply N.eqb_neq; lia). rewrite E3. reflexivity.
+  - assert (E1 : (240 + ec <? 256) = true) by (apply N.ltb_lt; lia). rewrite E1.
+    assert (E4 : (240 + ec) mod 16 = ec).
+    { replace (240 + ec) with (ec + 15 * 16) by lia. rewrite N.mod_add by lia. apply N.mod_small. lia. }
+    assert (E2 : (240 + ec) / 16 = 15).
+    { replace (240 + ec) with (ec + 15 * 16) by lia. rewrite N.div_add by lia. rewrite N.div_small by lia. lia. }
+    rewrite E4, Ht, E2. cbn [N.eqb Pos.eqb]. rewrite (varint_dec_complete _ _ r Hv).
+    apply N.ltb_lt in Hn. rewrite Hn. reflexivity.
+Qed.
+
+Lemma dec_lhdr_sound bs et n r : dec_lhdr bs = Some (et, n, r) ->
+  exists h ec, bs = h ++ r /\ tcode et ec /\ lhdr ec n h /\ n < 2 ^ 31.
+Proof.
+  destruct bs as [|b tl]; [discriminate|]. cbn [dec_lhdr].
+  destruct (b <? 256) eqn:E1; [|discriminate]. apply N.ltb_lt in E1.
+  destruct (type_of_code (b mod 16)) as [t|] eqn:T; [|discriminate].
+  assert (M : b mod 16 < 16) by (apply N.mod_lt; lia).
+  assert (D : b / 16 < 16) by (apply N.div_lt_upper_bound; lia).
+  pose proof (N.div_mod b 16 ltac:(lia)) as DM.
+  destruct (b / 16 =? 15) eqn:E2.
+  - apply N.eqb_eq in E2. destruct (varint_dec tl) as [[m r']|] eqn:V; [|discriminate].
+    destruct (m <? 2 ^ 31) eqn:E3; [|discriminate]. apply N.ltb_lt in E3. intros H; inversion H; subst.
+    destruct (varint_dec_sound _ _ _ V) as (l & -> & Hv).
+    exists (b :: l), (b mod 16). split; [reflexivity|]. split; [exact T|]. split; [|exact E3].
+    replace b with (240 + b mod 16) at 2 by lia. apply LH_long; assumption.
+  - apply N.eqb_neq in E2. intros H; inversion H; subst.
+    exists [b], (b mod 16). split; [reflexivity|]. split; [exact T|]. split.
+    + replace b with (16 * (b / 16) + b mod 16) at 3 by lia. apply LH_short. lia.
+    + assert (b / 16 < 16) by exact D. change (2 ^ 31) with 2147483648. lia.
+Qed.
+
+(* ------------------------------------------------------------------------------------------ *)
+(** * Every encoding takes at least one byte; types agree *)
+
+Lemma enc_type t v bs : enc t v bs -> type_of v = t.
+Proof. intros H; inversion H; reflexivity. Qed.
+
+Lemma lhdr_length_pos ec n h : lhdr ec n h -> (1 <= length h)%nat.
+Proof. intros H; inversion H; simpl; lia. Qed.
+
+Lemma fhdr_length_pos last id tc h : fhdr last id tc h -> (1 <= length h)%nat.
+Proof. intros H; inversion H; simpl; lia. Qed.
+
+Lemma enc_fields_length last fs bs : enc_fields last fs bs -> (length fs < length bs)%nat.
+Proof.
+  induction 1; simpl; [lia| |].
+  - rewrite app_length. pose proof (fhdr_length_pos _ _ _ _ H0). lia.
+  - rewrite !app_length. pose proof (fhdr_length_pos _ _ _ _ H1). lia.
+Qed.
+
+Lemma enc_length_pos t v bs : enc t v bs -> (1 <= length bs)%nat.
+Proof.
+  intros H; inversion H; subst; simpl; rewrite ?app_length;
+    repeat match goal with
+           | Hv : varint _ _ |- _ => apply varint_length_pos in Hv
+           | Hl : lhdr _ _ _ |- _ => apply lhdr_length_pos in Hl
+           | Hf : enc_fields _ _ _ |- _ => apply enc_fields_length in Hf
+           end; simpl; try lia.
+Qed.
+
+Lemma enc_elems_length et vs bs : enc_elems et vs bs -> (length vs <= length bs)%nat.
+Proof.
+  induction 1; simpl; [lia|]. rewrite app_length. pose proof (enc_length_pos _ _ _ H). lia.
+Qed.
+
+Lemma enc_pairs_length kt vt kvs bs : enc_pairs kt vt kvs bs -> (length kvs <= length bs)%nat.
+Proof.
+  induction 1; simpl; [lia|]. rewrite !app_length. pose proof (enc_length_pos _ _ _ H). lia.
+Qed.
+
+Lemma has_len_true : forall l n, (N.to_nat n <= length l)%nat -> has_len l n = true.
+Proof.
+  induction l as [|b t IH]; intros n H.
+  - destruct n; [reflexivity | simpl in H; lia].
+  - destruct n as [|p]; [reflexivity|]. change (has_len (b :: t) (N.pos p)) with (has_len t (N.pred (N.pos p))).
+    apply IH. simpl in H. lia.
+Qed.
+
+Lemma has_len_le : forall l n, has_len l n = true -> (N.to_nat n <= length l)%nat.
+Proof.
+  induction l as [|b t IH]; intros n H.
+  - destruct n; [simpl; lia | discriminate].
+  - destruct n as [|p]; [simpl; lia|]. change (has_len (b :: t) (N.pos p)) with (has_len t (N.pred (N.pos p))) in H.
+    apply IH in H. simpl. lia.
+Qed.
+
+(* ------------------------------------------------------------------------------------------ *)
+(** * Soundness: whatever [spec_decode] reads is a legal encoding of what it returns *)
+
+Definition sound1 (t : ttype) (dv : list N -> option (tval * list N)) : Prop :=
+  forall bs v r, dv bs = Some (v, r) -> exists pre, bs = pre ++ r /\ enc t v pre.
+
+Lemma dec_elems_sound et dv : sound1 et dv -> forall n bs vs r, dec_elems dv n bs = Some (vs, r) ->
+  exists pre, bs = pre ++ r /\ enc_elems et vs pre /\ length vs = n.
+Proof.
+  intros S. induction n as [|n IH]; intros bs vs r H; cbn [dec_elems] in H.
+  - inversion H; subst. exists []. repeat split. constructor.
+  - destruct (dv bs) as [[v r1]|] eqn:E; [|discriminate].
+    destruct (dec_elems dv n r1) as [[vs' r2]|] eqn:E2; [|discriminate]. inversion H; subst.
+    destruct (S _ _ _ E) as (p1 & -> & H1). destruct (IH _ _ _ E2) as (p2 & -> & H2 & L).
+    exists (p1 ++ p2). rewrite app_assoc. repeat split; [constructor; assumption | simpl; lia].
+Qed.
+
+Lemma dec_pairs_sound kt vt dk dv : sound1 kt dk -> sound1 vt dv -> forall n bs kvs r,
+  dec_pairs dk dv n bs = Some (kvs, r) -> exists pre, bs = pre ++ r /\ enc_pairs kt vt kvs pre /\ length kvs = n.
+Proof.
+  intros Sk Sv. induction n as [|n IH]; intros bs kvs r H; cbn [dec_pairs] in H.
+  - inversion H; subst. exists []. repeat split. constructor.
+  - destruct (dk bs) as [[k r1]|] eqn:E; [|discriminate].
+    destruct (dv r1) as [[v r2]|] eqn:E1; [|discriminate].
+    destruct (dec_pairs dk dv n r2) as [[kvs' r3]|] eqn:E2; [|discriminate]. inversion H; subst.
+    destruct (Sk _ _ _ E) as (p1 & -> & H1). destruct (Sv _ _ _ E1) as (p2 & -> & H2).
+    destruct (IH _ _ _ E2) as (p3 & -> & H3 & L).
+    exists (p1 ++ p2 ++ p3). rewrite <- !app_assoc. repeat split; [constructor; assumption | simpl; lia].
+Qed.
+
+Lemma dec_fields_sound dv : (forall t, sound1 t (dv t)) -> forall k last bs fs r,
+  dec_fields dv k last bs = Some (fs, r) -> exists pre, bs = pre ++ r /\ enc_fields last fs pre.
+Proof.
+  intros S. induction k as [|k0 k IH]; intros last bs fs r H; [discriminate|]. cbn [dec_fields] in H.
+  destruct (dec_fhdr last bs) as [[[[tc id]|] r1]|] eqn:F; [| |discriminate].
+  - apply dec_fhdr_sound in F. destruct F as (h & -> & Hh & Htc & Hid).
+    destruct (tc =? 1) eqn:T1.
+    { apply N.eqb_eq in T1; subst tc. destruct (dec_fields dv k id r1) as [[fs' r2]|] eqn:E; [|discriminate].
+      inversion H; subst. destruct (IH _ _ _ _ E) as (p & -> & Hp).
+      exists (h ++ p). rewrite app_assoc. split; [reflexivity|]. apply (EF_bool last id true); assumption. }
+    destruct (tc =? 2) eqn:T2.
+    { apply N.eqb_eq in T2; subst tc. destruct (dec_fields dv k id r1) as [[fs' r2]|] eqn:E; [|discriminate].
+      inversion H; subst. destruct (IH _ _ _ _ E) as (p & -> & Hp).
+      exists (h ++ p). rewrite app_assoc. split; [reflexivity|]. apply (EF_bool last id false); assumption. }
+    apply N.eqb_neq in T1. apply N.eqb_neq in T2.
+    destruct (type_of_code tc) as [ft|] eqn:TC; [|discriminate].
+    destruct (dv ft r1) as [[v r2]|] eqn:E1; [|discriminate].
+    destruct (dec_fields dv k id r2) as [[fs' r3]|] eqn:E; [|discriminate]. inversion H; subst.
+    destruct (S _ _ _ _ E1) as (pv & -> & Hv). destruct (IH _ _ _ _ E) as (p & -> & Hp).
+    destruct (type_of_code_nonbool _ _ TC T1 T2) as [NB CD].
+    pose proof (enc_type _ _ _ Hv) as TY.
+    exists (h ++ pv ++ p). rewrite <- !app_assoc. split; [reflexivity|].
+    apply EF_val; try assumption; rewrite TY; try assumption. rewrite CD. assumption.
+  - apply dec_fhdr_sound in F. subst bs. inversion H; subst. exists [0]. split; [reflexivity | constructor].
+Qed.
+
+Lemma dec_int_sound bits mk t bs v r :
+  (forall z l, in_range bits z -> varint (zz z) l -> enc t (mk z) l) ->
+  dec_int bits mk bs = Some (v, r) -> exists pre, bs = pre ++ r /\ enc t v pre.
+Proof.
+  intros C. unfold dec_int. destruct (varint_dec bs) as [[n r']|] eqn:V; [|discriminate]. cbv zeta.
+  destruct (in_rangeb bits (unzz n)) eqn:R; [|discriminate]. intros H; inversion H; subst.
+  destruct (varint_dec_sound _ _ _ V) as (l & -> & Hv). exists l. split; [reflexivity|].
+  apply C; [apply in_rangeb_iff; exact R | rewrite zz_unzz; exact Hv].
+Qed.
+
+Theorem dec_val_sound : forall d t, sound1 t (dec_val d t).
+Proof.
+  induction d as [|d0 d IH]; intros t bs v r H; [discriminate|]. cbn [dec_val] in H.
+  destruct t.
+  - (* bool *) destruct bs as [|b tl]; [discriminate|]. destruct (b =? 1) eqn:E1.
+    + apply N.eqb_eq in E1; subst. inversion H; subst. exists [1]. split; [reflexivity | constructor].
+    + destruct ((b =? 0) || (b =? 2)) eqn:E2; [|discriminate]. inversion H; subst. exists [b]. split; [reflexivity|].
+      constructor. apply orb_true_iff in E2. destruct E2 as [E|E]; apply N.eqb_eq in E; auto.
+  - (* byte *) destruct bs as [|b tl]; [discriminate|]. destruct (b <? 256) eqn:E1; [|discriminate].
+    apply N.ltb_lt in E1. inversion H; subst. exists [b]. split; [reflexivity|].
+    destruct (byte_of_z_of_byte b E1) as [R E]. rewrite <- E at 2. constructor. exact R.
+  - eapply dec_int_sound; [|exact H]. intros; constructor; assumption.
+  - eapply dec_int_sound; [|exact H]. intros; constructor; assumption.
+  - eapply dec_int_sound; [|exact H]. intros; constructor; assumption.
+  - (* double *) destruct (take_n 8 bs) as [[a r']|] eqn:E; [|discriminate]. inversion H; subst.
+    destruct (take_n_sound _ _ _ _ E) as (-> & L & B). exists a. split; [reflexivity|].
+    destruct (le_bytes_le_val a B) as [E1 E2]. rewrite L in *. rewrite <- E1 at 2. constructor.
+    change (256 ^ N.of_nat 8) with (2 ^ 64) in E2. exact E2.
+  - (* binary *) destruct (varint_dec bs) as [[n r']|] eqn:V; [|discriminate].
+    destruct ((n <? 2 ^ 31) && has_len r' n) eqn:G; [|discriminate]. apply andb_true_iff in G. destruct G as [G1 G2].
+    destruct (take_n (N.to_nat n) r') as [[a r'']|] eqn:E; [|discriminate]. inversion H; subst.
+    destruct (varint_dec_sound _ _ _ V) as (l & -> & Hv). destruct (take_n_sound _ _ _ _ E) as (-> & L & B).
+    exists (l ++ a). rewrite app_assoc. split; [reflexivity|]. apply N.ltb_lt in G1.
+    constructor; [exact B | rewrite L, N2Nat.id; exact G1 | rewrite L, N2Nat.id; exact Hv].
+  - (* list *) destruct (dec_lhdr bs) as [[[et n] r']|] eqn:L; [|discriminate].
+    destruct (has_len r' n); [|discriminate].
+    destruct (dec_elems (dec_val d et) (N.to_nat n) r') as [[vs r'']|] eqn:E; [|discriminate]. inversion H; subst.
+    destruct (dec_lhdr_sound _ _ _ _ L) as (h & ec & -> & TC & LH & _).
+    destruct (dec_elems_sound et _ (IH et) _ _ _ _ E) as (p & -> & HE & LE).
+    exists (h ++ p). rewrite app_assoc. split; [reflexivity|]. econstructor; eauto. rewrite LE, N2Nat.id. exact LH.
+  - (* set *) destruct (dec_lhdr bs) as [[[et n] r']|] eqn:L; [|discriminate].
+    destruct (has_len r' n); [|discriminate].
+    destruct (dec_elems (dec_val d et) (N.to_nat n) r') as [[vs r'']|] eqn:E; [|discriminate]. inversion H; subst.
+    destruct (dec_lhdr_sound _ _ _ _ L) as (h & ec & -> & TC & LH & _).
+    destruct (dec_elems_sound et _ (IH et) _ _ _ _ E) as (p & -> & HE & LE).
+    exists (h ++ p). rewrite app_assoc. split; [reflexivity|]. econstructor; eauto. rewrite LE, N2Nat.id. exact LH.
+  - (* map *) destruct (varint_dec bs) as [[n r']|] eqn:V; [|discriminate].
+    destruct (varint_dec_sound _ _ _ V) as (l & -> & Hv).
+    destruct (n =? 0) eqn:Z0.
+    + apply N.eqb_eq in Z0; subst n. inversion H; subst. exists l. split; [reflexivity|]. constructor. exact Hv.
+    + destruct ((n <? 2 ^ 31) && has_len r' n) eqn:G; [|discriminate]. apply andb_true_iff in G. destruct G as [G1 G2].
+      destruct r' as [|tb r1]; [discriminate|]. destruct (tb <? 256) eqn:TB; [|discriminate]. apply N.ltb_lt in TB.
+      destruct (type_of_code (tb / 16)) as [kt|] eqn:KT; [|discriminate].
+      destruct (type_of_code (tb mod 16)) as [vt|] eqn:VT; [|discriminate].
+      destruct (dec_pairs (dec_val d kt) (dec_val d vt) (N.to_nat n) r1) as [[kvs r'']|] eqn:E; [|discriminate].
+      inversion H; subst.
+      destruct (dec_pairs_sound kt vt _ _ (IH kt) (IH vt) _ _ _ _ E) as (p & -> & HP & LP).
+      apply N.eqb_neq in Z0. apply N.ltb_lt in G1.
+      exists (l ++ tb :: p). rewrite <- app_assoc. split; [reflexivity|].
+      replace tb with (16 * (tb / 16) + tb mod 16) at 1 by (symmetry; apply N.div_mod; lia).
+      apply (E_map kt vt); try assumption.
+      * intros ->. simpl in LP. lia.
+      * rewrite LP, N2Nat.id. exact G1.
+      * rewrite LP, N2Nat.id. exact Hv.
+  - (* struct *) destruct (dec_fields (dec_val d) bs 0%Z bs) as [[fs r']|] eqn:E; [|discriminate]. inversion H; subst.
+    destruct (dec_fields_sound _ IH _ _ _ _ _ E) as (p & EQ & HF). exists p. split; [exact EQ | constructor; exact HF].
+  - (* uuid *) destruct (take_n 16 bs) as [[a r']|] eqn:E; [|discriminate]. inversion H; subst.
+    destruct (take_n_sound _ _ _ _ E) as (-> & L & B). exists a. split; [reflexivity | constructor; assumption].
+Qed.
+
+Theorem spec_decode_sound : forall bs v, spec_decode bs = Some v -> Encodes bs v.
+Proof.
+  intros bs v. unfold spec_decode, Encodes.
+  destruct (dec_val (0 :: bs) TStruct bs) as [[v' r]|] eqn:E; [|discriminate].
+  destruct r; [|discriminate]. intros H; inversion H; subst.
+  destruct (dec_val_sound _ _ _ _ _ E) as (pre & -> & HE). rewrite app_nil_r. exact HE.
+Qed.
+
+(* ------------------------------------------------------------------------------------------ *)
+(** * Completeness: every legal encoding is read, and read to the value it encodes *)
+
+Definition all_depth (n : nat) (vs : list tval) : Prop := forall v, In v vs -> (vdepth v <= n)%nat.
+Definition all_depth_p (n : nat) (kvs : list (tval * tval)) : Prop :=
+  forall k v, In (k, v) kvs -> (vdepth k <= n)%nat /\ (vdepth v <= n)%nat.
+Definition all_depth_f (n : nat) (fs : list (Z * tval)) : Prop := forall id v, In (id, v) fs -> (vdepth v <= n)%nat.
+
+Lemma vdepth_list_le n vs : (fold_right (fun x acc => Nat.max (vdepth x) acc) O vs <= n)%nat -> all_depth n vs.
+Proof.
+  induction vs as [|x t IH]; intros H v Hin; [destruct Hin|]. simpl in H. destruct Hin as [->|Hin]; [lia|].
+  apply IH; [lia | exact Hin].
+Qed.
+
+Lemma vdepth_pairs_le n kvs :
+  (fold_right (fun (kv : tval * tval) acc => let (k, x) := kv in Nat.max (Nat.max (vdepth k) (vdepth x)) acc) O kvs <= n)%nat ->
+  all_depth_p n kvs.
+Proof.
+  induction kvs as [|[k0 x0] t IH]; intros H k v Hin; [destruct Hin|]. simpl in H. destruct Hin as [E|Hin].
+  - inversion E; subst. lia.
+  - apply IH; [lia | exact Hin].
+Qed.
+
+Lemma vdepth_fields_le n fs :
+  (fold_right (fun (f : Z * tval) acc => let (_, x) := f in Nat.max (vdepth x) acc) O fs <= n)%nat -> all_depth_f n fs.
+Proof.
+  induction fs as [|[i0 x0] t IH]; intros H id v Hin; [destruct Hin|]. simpl in H. destruct Hin as [E|Hin].
+  - inversion E; subst. lia.
+  - apply (IH ltac:(lia) id v Hin).
+Qed.
+
+Lemma dec_int_complete bits mk z l r : in_range bits z -> varint (zz z) l -> dec_int bits mk (l ++ r) = Some (mk z, r).
+Proof.
+  intros R V. unfold dec_int. rewrite (varint_dec_complete _ _ r V). cbv zeta. rewrite unzz_zz.
+  apply in_rangeb_iff in R. rewrite R. reflexivity.
+Qed.
+
+Theorem enc_complete :
+  (forall t v pre, enc t v pre -> forall d r, (vdepth v <= length d)%nat -> dec_val d t (pre ++ r) = Some (v, r)) /\
+  (forall et vs body, enc_elems et vs body -> forall d r, all_depth (length d) vs ->
+     dec_elems (dec_val d et) (length vs) (body ++ r) = Some (vs, r)) /\
+  (forall kt vt kvs body, enc_pairs kt vt kvs body -> forall d r, all_depth_p (length d) kvs ->
+     dec_pairs (dec_val d kt) (dec_val d vt) (length kvs) (body ++ r) = Some (kvs, r)) /\
+  (forall last fs pre, enc_fields last fs pre -> forall d k r, all_depth_f (length d) fs -> (length fs < length k)%nat ->
+     dec_fields (dec_val d) k last (pre ++ r) = Some (fs, r)).
+Proof.
+  apply enc_mutind.
+  - (* true *) intros d r Hd. destruct d; [simpl in Hd; lia|]. reflexivity.
+  - (* false *) intros b Hb d r Hd. destruct d; [simpl in Hd; lia|]. cbn [app dec_val].
+    destruct Hb as [-> | ->]; reflexivity.
+  - (* byte *) intros z Hz d r Hd. destruct d; [simpl in Hd; lia|]. cbn [app dec_val].
+    destruct (z_of_byte_of_z z Hz) as [E B]. apply N.ltb_lt in B. rewrite B, E. reflexivity.
+  - intros z l R V d r Hd. destruct d; [simpl in Hd; lia|]. cbn [dec_val]. apply dec_int_complete; assumption.
+  - intros z l R V d r Hd. destruct d; [simpl in Hd; lia|]. cbn [dec_val]. apply dec_int_complete; assumption.
+  - intros z l R V d r Hd. destruct d; [simpl in Hd; lia|]. cbn [dec_val]. apply dec_int_complete; assumption.
+  - (* double *) intros bits Hb d r Hd. destruct d; [simpl in Hd; lia|]. cbn [dec_val].
+    rewrite take_n_complete; [| apply le_bytes_length | apply le_bytes_byte].
+    rewrite le_val_le_bytes; [reflexivity|]. change (256 ^ N.of_nat 8) with (2 ^ 64). exact Hb.
+  - (* binary *) intros bs l B L V d r Hd. destruct d; [simpl in Hd; lia|]. cbn [dec_val].
+    rewrite <- app_assoc. rewrite (varint_dec_complete _ _ (bs ++ r) V).
+    apply N.ltb_lt in L. rewrite L. rewrite has_len_true by (rewrite Nat2N.id, app_length; lia). cbn [andb].
+    rewrite Nat2N.id. rewrite take_n_complete by auto. reflexivity.
+  - (* list *) intros et ec vs h body TC LH HE IH d r Hd. destruct d as [|d0 d]; [simpl in Hd; lia|]. cbn [dec_val].
+    rewrite <- app_assoc. rewrite (dec_lhdr_complete et ec _ h (body ++ r) TC LH).
+    rewrite has_len_true by (rewrite Nat2N.id, app_length; pose proof (enc_elems_length _ _ _ HE); lia).
+    rewrite Nat2N.id. rewrite (IH d r); [reflexivity|]. apply vdepth_list_le. simpl in Hd. lia.
+  - (* set *) intros et ec vs h body TC LH HE IH d r Hd. destruct d as [|d0 d]; [simpl in Hd; lia|]. cbn [dec_val].
+    rewrite <- app_assoc. rewrite (dec_lhdr_complete et ec _ h (body ++ r) TC LH).
+    rewrite has_len_true by (rewrite Nat2N.id, app_length; pose proof (enc_elems_length _ _ _ HE); lia).
+    rewrite Nat2N.id. rewrite (IH d r); [reflexivity|]. apply vdepth_list_le. simpl in Hd. lia.
+  - (* empty map *) intros l V d r Hd. destruct d; [simpl in Hd; lia|]. cbn [dec_val].
+    rewrite (varint_dec_complete _ _ r V). reflexivity.
+  - (* map *) intros kt vt kc vc kvs l body NE L V TK TV HP IH d r Hd. destruct d as [|d0 d]; [simpl in Hd; lia|]. cbn [dec_val].
+    rewrite <- app_assoc. rewrite (varint_dec_complete _ _ ((16 * kc + vc :: body) ++ r) V).
+    assert (Z0 : (N.of_nat (length kvs) =? 0) = false) by (apply N.eqb_neq; destruct kvs; [congruence | simpl; lia]).
+    rewrite Z0. apply N.ltb_lt in L. rewrite L.
+    rewrite has_len_true by (rewrite Nat2N.id; simpl; rewrite app_length; pose proof (enc_pairs_length _ _ _ _ HP); lia).
+    cbn [andb app].
+    pose proof (type_of_code_bound _ _ TK) as BK. pose proof (type_of_code_bound _ _ TV) as BV. unfold tcode in TK, TV.
+    assert (E1 : (16 * kc + vc <? 256) = true) by (apply N.ltb_lt; lia). rewrite E1.
+    assert (E2 : (16 * kc + vc) / 16 = kc).
+    { rewrite N.add_comm, (N.mul_comm 16). rewrite N.div_add by lia. rewrite N.div_small by lia. lia. }
+    assert (E3 : (16 * kc + vc) mod 16 = vc).
+    { rewrite N.add_comm, (N.mul_comm 16). rewrite N.mod_add by lia. apply N.mod_small. lia. }
+    rewrite E2, E3, TK, TV, Nat2N.id. rewrite (IH d r); [reflexivity|]. apply vdepth_pairs_le. simpl in Hd. lia.
+  - (* struct *) intros fs bs HF IH d r Hd. destruct d as [|d0 d]; [simpl in Hd; lia|]. cbn [dec_val].
+    rewrite (IH d (bs ++ r) r); [reflexivity | apply vdepth_fields_le; simpl in Hd; lia |].
+    rewrite app_length. pose proof (enc_fields_length _ _ _ HF). lia.
+  - (* uuid *) intros bs L B d r Hd. destruct d; [simpl in Hd; lia|]. cbn [dec_val].
+    rewrite take_n_complete by auto. reflexivity.
+  - (* elems nil *) intros et d r _. reflexivity.
+  - (* elems cons *) intros et v vs b1 b2 H1 IH1 H2 IH2 d r Hd. cbn [length dec_elems].
+    rewrite <- app_assoc. rewrite (IH1 d (b2 ++ r)) by (apply Hd; left; reflexivity).
+    rewrite (IH2 d r); [reflexivity|]. intros x Hx. apply Hd. right. exact Hx.
+  - (* pairs nil *) intros kt vt d r _. reflexivity.
+  - (* pairs cons *) intros kt vt k v kvs b1 b2 b3 H1 IH1 H2 IH2 H3 IH3 d r Hd. cbn [length dec_pairs].
+    rewrite <- !app_assoc. destruct (Hd k v (or_introl eq_refl)) as [Dk Dv].
+    rewrite (IH1 d (b2 ++ b3 ++ r) Dk). rewrite (IH2 d (b3 ++ r) Dv).
+    rewrite (IH3 d r); [reflexivity|]. intros k' v' Hin. apply Hd. right. exact Hin.
+  - (* stop *) intros last d k r _ Hk. destruct k; [simpl in Hk; lia|]. reflexivity.
+  - (* bool field *) intros last id b fs h rest Hid FH HF IH d k r Hd Hk. destruct k as [|k0 k]; [simpl in Hk; lia|].
+    cbn [dec_fields]. rewrite <- app_assoc.
+    rewrite (dec_fhdr_complete last id _ h (rest ++ r) FH); [|destruct b; lia|exact Hid].
+    assert (Hrest : dec_fields (dec_val d) k id (rest ++ r) = Some (fs, r)).
+    { apply IH; [|simpl in Hk; lia]. intros i v Hin. apply (Hd i v). right. exact Hin. }
+    destruct b; cbn [N.eqb Pos.eqb]; rewrite Hrest; reflexivity.
+  - (* other field *) intros last id v fs h pay rest Hid NB FH HE IHE HF IH d k r Hd Hk. destruct k as [|k0 k]; [simpl in Hk; lia|].
+    cbn [dec_fields]. rewrite <- !app_assoc. pose proof (code_bound (type_of v)) as CB.
+    rewrite (dec_fhdr_complete last id _ h (pay ++ rest ++ r) FH); [|lia|exact Hid].
+    destruct (code_nonbool _ NB) as [N1 N2]. apply N.eqb_neq in N1. apply N.eqb_neq in N2. rewrite N1, N2.
+    rewrite type_of_code_code.
+    rewrite (IHE d (rest ++ r)) by (apply (Hd id v); left; reflexivity).
+    rewrite IH; [reflexivity | | simpl in Hk; lia]. intros i x Hin. apply (Hd i x). right. exact Hin.
+Qed.
+
+(** a value is never nested deeper than its encoding is long *)
+Theorem enc_depth :
+  (forall t v pre, enc t v pre -> (vdepth v <= length pre)%nat) /\
+  (forall et vs body, enc_elems et vs body ->
+     (fold_right (fun x acc => Nat.max (vdepth x) acc) O vs <= length body)%nat) /\
+  (forall kt vt kvs body, enc_pairs kt vt kvs body ->
+     (fold_right (fun (kv : tval * tval) acc => let (k, x) := kv in Nat.max (Nat.max (vdepth k) (vdepth x)) acc) O kvs <= length body)%nat) /\
+  (forall last fs pre, enc_fields last fs pre ->
+     (S (fold_right (fun (f : Z * tval) acc => let (_, x) := f in Nat.max (vdepth x) acc) O fs) <= length pre)%nat).
+Proof.
+  apply enc_mutind; intros; cbn [vdepth fold_right length]; rewrite ?app_length;
+    repeat match goal with
+           | Hv : varint _ _ |- _ => apply varint_length_pos in Hv
+           | Hl : lhdr _ _ _ |- _ => apply lhdr_length_pos in Hl
+           | Hf : fhdr _ _ _ _ |- _ => apply fhdr_length_pos in Hf
+           end; try rewrite le_bytes_length; cbn [length vdepth]; try lia.
+Qed.
+
+Theorem spec_decode_complete : forall bs v, Encodes bs v -> spec_decode bs = Some v.
+Proof.
+  intros bs v H. unfold spec_decode, Encodes in *.
+  destruct enc_complete as (C & _). destruct enc_depth as (D & _).
+  pose proof (C _ _ _ H (0 :: bs) []) as E. rewrite app_nil_r in E. rewrite E; [reflexivity|].
+  pose proof (D _ _ _ H). simpl. lia.
+Qed.
+
+(** [spec_decode] IS the relation *)
+Corollary spec_decode_iff bs v : spec_decode bs = Some v <-> Encodes bs v.
+Proof. split; [apply spec_decode_sound | apply spec_decode_complete]. Qed.
+
+(** encodings are uniquely readable *)
+Corollary enc_unique bs v v' : Encodes bs v -> Encodes bs v' -> v = v'.
+Proof. intros H H'. apply spec_decode_complete in H, H'. congruence. Qed.
+
+(* ------------------------------------------------------------------------------------------ *)
+(** * The canonical encoder produces legal encodings *)
+
+Section TvalInd.
+  Variable P : tval -> Prop.
+  Hypothesis Hbool : forall b, P (VBool b).
+  Hypothesis Hbyte : forall z, P (VByte z).
+  Hypothesis Hi16 : forall z, P (VI16 z).
+  Hypothesis Hi32 : forall z, P (VI32 z).
+  Hypothesis Hi64 : forall z, P (VI64 z).
+  Hypothesis Hdouble : forall b, P (VDouble b).
+  Hypothesis Hbinary : forall bs, P (VBinary bs).
+  Hypothesis Hlist : forall et vs, Forall P vs -> P (VList et vs).
+  Hypothesis Hset : forall et vs, Forall P vs -> P (VSet et vs).
+  Hypothesis Hmap : forall kvs, Forall (fun kv => P (fst kv) /\ P (snd kv)) kvs -> P (VMap kvs).
+  Hypothesis Hstruct : forall fs, Forall (fun f => P (snd f)) fs -> P (VStruct fs).
+  Hypothesis Huuid : forall bs, P (VUuid bs).
+
+  Fixpoint tval_ind' (v : tval) : P v :=
+    match v with
+    | VBool b => Hbool b | VByte z => Hbyte z | VI16 z => Hi16 z | VI32 z => Hi32 z | VI64 z => Hi64 z
+    | VDouble b => Hdouble b | VBinary bs => Hbinary bs
+    | VList et vs => Hlist et vs ((fix go (l : list tval) : Forall P l :=
+                       match l with [] => Forall_nil _ | x :: t => Forall_cons _ (tval_ind' x) (go t) end) vs)
+    | VSet et vs => Hset et vs ((fix go (l : list tval) : Forall P l :=
+                       match l with [] => Forall_nil _ | x :: t => Forall_cons _ (tval_ind' x) (go t) end) vs)
+    | VMap kvs => Hmap kvs ((fix go (l : list (tval * tval)) : Forall (fun kv => P (fst kv) /\ P (snd kv)) l :=
+                       match l with
+                       | [] => Forall_nil _
+                       | (k, x) :: t => Forall_cons (k, x) (conj (tval_ind' k) (tval_ind' x)) (go t)
+                       end) kvs)
+    | VStruct fs => Hstruct fs ((fix go (l : list (Z * tval)) : Forall (fun f => P (snd f)) l :=
+                       match l with [] => Forall_nil _ | (i, x) :: t => Forall_cons (i, x) (tval_ind' x) (go t) end) fs)
+    | VUuid bs => Huuid bs
+    end.
+End TvalInd.
+
+Lemma lt31_64 n : n < 2147483648 -> n < 2 ^ 64.
+Proof. intros H. eapply N.lt_trans; [exact H | reflexivity]. Qed.
+
+Lemma enc_fhdr_ok last id tc : in_range 16 id -> fhdr last id tc (enc_fhdr last id tc).
+Proof.
+  intros R. unfold enc_fhdr. destruct ((1 <=? id - last) && (id - last <=? 15))%Z eqn:E.
+  - apply andb_true_iff in E. destruct E as [E1 E2]. apply Z.leb_le in E1, E2. apply FH_short. lia.
+  - apply FH_long. apply uleb_varint. pose proof (zz_range 16 id ltac:(lia) R) as B. change (Z.to_N 16) with 16 in B.
+    eapply N.lt_trans; [exact B|]. apply N.pow_lt_mono_r; lia.
+Qed.
+
+Lemma enc_lhdr_ok ec n : n < 2 ^ 31 -> lhdr ec n (enc_lhdr ec n).
+Proof.
+  intros H. unfold enc_lhdr. destruct (n <=? 14) eqn:E.
+  - apply N.leb_le in E. apply LH_short. exact E.
+  - apply LH_long; [exact H|]. apply uleb_varint. apply lt31_64. exact H.
+Qed.
+
+Lemma uleb_zz_varint bits z : (1 <= bits <= 64)%Z -> in_range bits z -> varint (zz z) (uleb (zz z)).
+Proof.
+  intros Hb R. apply uleb_varint. pose proof (zz_range bits z ltac:(lia) R) as B.
+  eapply N.lt_le_trans; [exact B|]. apply N.pow_le_mono_r; lia.
+Qed.
+
+Lemma elems_ok et vs :
+  Forall (fun v => tval_ok v -> enc (type_of v) v (spec_encode_val v)) vs ->
+  fold_right (fun x acc => type_of x = et /\ tval_ok x /\ acc) True vs ->
+  enc_elems et vs (flat_map spec_encode_val vs).
+Proof.
+  induction vs as [|x t IHt]; intros H A; [constructor|]. inversion H; subst. cbn [fold_right] in A.
+  destruct A as (T & O & A). cbn [flat_map]. pose proof (H2 O) as E. rewrite T in E.
+  constructor; [exact E | apply IHt; assumption].
+Qed.
+
+Lemma pairs_ok kt vt l :
+  Forall (fun kv => (tval_ok (fst kv) -> enc (type_of (fst kv)) (fst kv) (spec_encode_val (fst kv))) /\
+                    (tval_ok (snd kv) -> enc (type_of (snd kv)) (snd kv) (spec_encode_val (snd kv)))) l ->
+  fold_right (fun (kv : tval * tval) acc => let (k, x) := kv in
+                type_of k = kt /\ type_of x = vt /\ tval_ok k /\ tval_ok x /\ acc) True l ->
+  enc_pairs kt vt l (flat_map (fun kv => spec_encode_val (fst kv) ++ spec_encode_val (snd kv)) l).
+Proof.
+  induction l as [|[k x] l IHl]; intros H A; [constructor|]. inversion H; subst. cbn [fold_right] in A.
+  destruct A as (T1 & T2 & O1 & O2 & A). destruct H2 as [Pk Px]. cbn [fst snd] in Pk, Px.
+  pose proof (Pk O1) as E1. pose proof (Px O2) as E2. rewrite T1 in E1. rewrite T2 in E2.
+  cbn [flat_map fst snd]. rewrite <- app_assoc. constructor; [exact E1 | exact E2 | apply IHl; assumption].
+Qed.
+
+Theorem spec_encode_ok : forall v, tval_ok v -> enc (type_of v) v (spec_encode_val v).
+Proof.
+  induction v using tval_ind'; intros OK; cbn [type_of].
+  - destruct b; cbn [spec_encode_val]; constructor. left; reflexivity.
+  - cbn in OK. constructor. exact OK.
+  - cbn in OK. constructor; [exact OK | apply (uleb_zz_varint 16); [lia | exact OK]].
+  - cbn in OK. constructor; [exact OK | apply (uleb_zz_varint 32); [lia | exact OK]].
+  - cbn in OK. constructor; [exact OK | apply (uleb_zz_varint 64); [lia | exact OK]].
+  - cbn in OK. constructor. exact OK.
+  - cbn in OK. destruct OK as [B L]. cbn [spec_encode_val]. constructor; [exact B | exact L |].
+    apply uleb_varint. apply lt31_64. exact L.
+  - (* list *) cbn [spec_encode_val]. cbn [tval_ok] in OK. destruct OK as [L A].
+    apply (E_list et (code et)); [apply type_of_code_code | apply enc_lhdr_ok; exact L | apply elems_ok; assumption].
+  - (* set *) cbn [spec_encode_val]. cbn [tval_ok] in OK. destruct OK as [L A].
+    apply (E_set et (code et)); [apply type_of_code_code | apply enc_lhdr_ok; exact L | apply elems_ok; assumption].
+  - (* map *) destruct kvs as [|[k0 x0] t].
+    + cbn [spec_encode_val]. constructor. apply (uleb_varint 0). lia.
+    + cbn [tval_ok] in OK. destruct OK as [L A]. cbn [spec_encode_val first_types].
+      apply (E_map (type_of k0) (type_of x0)); try apply type_of_code_code; try discriminate; [exact L | |].
+      * apply uleb_varint. apply lt31_64. exact L.
+      * apply (pairs_ok (type_of k0) (type_of x0)); [exact H | exact A].
+  - (* struct *) cbn [spec_encode_val]. constructor. generalize 0%Z as last. cbn [tval_ok] in OK.
+    induction fs as [|[id x] t IHt]; intros last; [constructor|].
+    inversion H; subst. cbn [fold_right] in OK. destruct OK as (R & O & A). cbn [snd] in H2.
+    destruct x; try (apply EF_val; [exact R | discriminate | apply enc_fhdr_ok; exact R | apply H2; exact O | apply IHt; assumption]).
+    apply EF_bool; [exact R | apply enc_fhdr_ok; exact R | apply IHt; assumption].
+  - cbn in OK. destruct OK. constructor; assumption.
+Qed.
+
+Theorem spec_encode_roundtrip : forall fs, tval_ok (VStruct fs) -> spec_decode (spec_encode (VStruct fs)) = Some (VStruct fs).
+Proof. intros fs OK. apply spec_decode_complete. apply (spec_encode_ok (VStruct fs) OK). Qed.
+
+(** a non-trivial instance: every wire type, long-form header, 15-element list *)
+Example spec_roundtrip_example :
+  let v := VStruct [(1%Z, VI32 (-1)); (20%Z, VBool true); (3%Z, VList TI64 (repeat (VI64 (-9223372036854775808)) 15));
+                    (4%Z, VMap [(VBinary [1; 2], VStruct [(1%Z, VDouble 5)])]); (5%Z, VSet TBool [VBool false]);
+                    (32767%Z, VUuid (repeat 7 16)); ((-5)%Z, VByte (-128)); (6%Z, VI16 32767); (7%Z, VMap [])] in
+  tval_ok v /\ spec_decode (spec_encode v) = Some v.
+Proof. split; [|vm_compute; reflexivity]. cbn. unfold in_range, byte. repeat split; try lia; repeat constructor; lia. Qed.
